@@ -301,7 +301,9 @@ def mk_path_stub(kind):
 
 def classification_cases():
     out = []
-    kinds = ["success", "revert", "panic", "fail", "stuck:unsat", "stuck:sat", "stuck:unknown", "stuck:err", "substuck:unsat", "substuck:sat", "substuck:unknown", "shutdown"]
+    # stuck:raises-*: the real solve_low_level RAISES when the executor was shut down by an early exit in another thread's callback
+    # (ShutdownError from submit, or OSError 9 from the pipes of the killed solver): the verdict must still be the one of the outcomes
+    kinds = ["success", "revert", "panic", "fail", "stuck:unsat", "stuck:sat", "stuck:unknown", "stuck:err", "stuck:raises-shutdown", "stuck:raises-badfd", "stuck:raises-other", "substuck:unsat", "substuck:sat", "substuck:unknown", "shutdown"]
     for kind in kinds:
 
         def harness(interp, kind=kind):
@@ -325,6 +327,14 @@ def classification_cases():
             def solve_low_level(i, a, k):
                 solved.append(a[0])
                 r = kind.split(":")[1]
+                if r == "raises-shutdown":
+                    from halmos.processes import ShutdownError
+
+                    raise ShutdownError()
+                if r == "raises-badfd":
+                    raise OSError(9, "Bad file descriptor")
+                if r == "raises-other":
+                    raise RuntimeError("solver wrapper bug")
                 return NS(result={"unsat": z3.unsat, "sat": z3.sat, "unknown": z3.unknown, "err": "err"}[r])
 
             interp.contracts["halmos.solve:solve_low_level"] = solve_low_level
@@ -333,8 +343,11 @@ def classification_cases():
             env = Env({"ctx": fctx, "args": args, "ex": ex, "path_id": path_id, "handler": handler, "normal": normal0, "potential": potential0, "stuck": stuck, "flamegraph_enabled": False, "is_invariant": False, "funsig": "check_x()"}, None, hm.run_test.__globals__)
             n_log = len(ctx.ghost_log)
             kindr, payload, _ = interp.exec_fragment(loop.body, env, qual="halmos.__main__:run_test#path-loop", is_gen=False)
+            if kind == "stuck:raises-other":
+                ctx.oblige("an unexpected failure of the feasibility query is not swallowed (the test ends as an error)", z3.BoolVal(kindr == "raise" and isinstance(payload, RuntimeError)))
+                return
             if kindr == "raise":
-                ctx.oblige(f"no-exception[{type(payload).__name__}]", z3.BoolVal(False), info={"msg": str(payload)[:200]})
+                ctx.oblige("a shutdown by an early exit while a stuck path is being checked leaves the verdict to the recorded outcomes (the path counts as stuck), it does not abort the test" if "raises" in kind else f"no-exception[{type(payload).__name__}]", z3.BoolVal(False), info={"msg": str(payload)[:200], "exc": type(payload).__name__})
                 return
             normal, potential = env.lookup("normal"), env.lookup("potential")
             dn = iexpr(normal) - normal0.e
@@ -368,7 +381,7 @@ def classification_cases():
             ctx.oblige("width: loop left iff the limit is set and reached", z3.BoolVal(kindr == "break") == cut, info={"kind": kindr})
             ctx.oblige("width: leaving early is reported by a warning naming --width", z3.BoolVal((kindr != "break") or warned))
 
-        out.append(Case(f"{PROP}/__main__.run_test#path-loop", kind, harness, sources=("halmos.__main__:run_test",)))
+        out.append(Case(f"{PROP}/__main__.run_test#path-loop", kind, harness, replay=replay_script("early_exit_stuck_path.py", "a counterexample and a stuck path under --early-exit") if "raises-" in kind else None, sources=("halmos.__main__:run_test",)))
     return out
 
 
